@@ -519,6 +519,26 @@ func (l *ledger) scanNode(n *simNode) {
 	// L-leader
 	if r.state == Leader {
 		l.claimLeader(r.term, n.id, "state=leader")
+		if !p.up || p.inc != n.inc || p.state != Leader || p.term != r.term {
+			// just won: a majority of the voters of its configuration granted it their vote in THIS term
+			// (grants are recorded when the voter answers; the candidate's own vote counts if it is a voter)
+			got, voters := 0, 0
+			var from []uint64
+			for id, nd := range r.configs.Latest.Nodes {
+				if !nd.Voter {
+					continue
+				}
+				voters++
+				if id == n.id || l.votes[[2]uint64{id, r.term}] == n.id {
+					got++
+					from = append(from, id)
+				}
+			}
+			if got < voters/2+1 {
+				sort.Slice(from, func(i, j int) bool { return from[i] < from[j] })
+				l.violate("leader", "leader-without-majority-of-votes", fmt.Sprintf("node %d became leader of term %d with votes of term %d from %v only (%d voters)", n.id, r.term, r.term, from, voters))
+			}
+		}
 	}
 	if r.state == Candidate && (!p.up || p.inc != n.inc || p.state != Candidate || p.term != r.term) {
 		l.stats.elections++
